@@ -88,6 +88,13 @@ impl Chooser {
         self.choices.push(c);
         c
     }
+    pub fn position(&self) -> usize {
+        self.choices.len()
+    }
+    /// Indices (relative to `from`) of the non-default choices made since `from`.
+    pub fn nonzero_since(&self, from: usize) -> Vec<usize> {
+        self.choices[from.min(self.choices.len())..].iter().enumerate().filter(|(_, c)| **c != 0).map(|(i, _)| i).collect()
+    }
     pub fn into_run(self) -> Run {
         Run { widths: self.widths, ran: self.choices.clone(), choices: self.choices, deadlocked: false, prefix_misfit: self.misfit }
     }
@@ -154,6 +161,15 @@ pub struct ExecCfg {
     /// one more choice point at the start: some node is unreachable (every request to it is
     /// refused) until a chosen later moment; it then learns everything through repair
     pub allow_unreachable_node: bool,
+    /// repair exchanges that happen as extra events may lose any of their RPCs (state poll,
+    /// state fetch, document fetch: one choice point each), and extra events may also follow
+    /// the last operation; the closing exchanges always complete. A failed exchange must
+    /// not keep later, healthy exchanges from repairing.
+    pub faulty_repairs: bool,
+    /// one more kind of extra event: every wall clock moves on by 61 minutes (more than the
+    /// forgiveness period), so that later stamps of an origin are more than an hour newer
+    /// than earlier ones a lagging or restarted node has yet to learn through repair
+    pub time_jumps: bool,
     /// minutes by which each node's wall clock reading is ahead when it issues an operation
     pub skew_minutes: Vec<u64>,
     /// concurrency block only: step background tasks one poll at a time for every pair (always
@@ -209,11 +225,18 @@ where
     let mut out = Outcome::default();
     let layout: Vec<(NodeId, String)> = (0..cfg.n_nodes).map(|i| (i as NodeId + 1, "dc".to_string())).collect();
     let mut cluster: Cluster<FaultStore<I>> = Cluster::start(&layout, |_| Arc::new(FaultStore::new(make_inner()))).await;
+    let repair_rpcs_may_fail = Rc::new(std::cell::Cell::new(false));
     {
         let chooser = chooser.clone();
+        let repair_rpcs_may_fail = repair_rpcs_may_fail.clone();
         datacake_rpc::verif::set_policy(move |_dst, path| {
             if !path.contains("ConsistencyService") {
-                return NetVerdict::Deliver; // repair RPCs: an exchange that fails has not completed
+                // repair RPCs: the closing exchanges complete; an exchange in the middle of
+                // a history may lose any of its requests when the block says so
+                if repair_rpcs_may_fail.get() && chooser.borrow_mut().choose(2) == 1 {
+                    return NetVerdict::DropRequest;
+                }
+                return NetVerdict::Deliver;
             }
             match chooser.borrow_mut().choose(3) {
                 0 => NetVerdict::Deliver,
@@ -276,18 +299,22 @@ where
         }
         // extra events in the gap after this operation (not after the last one: the end
         // phase below covers that)
-        if oi + 1 < ops.len() {
+        if oi + 1 < ops.len() || cfg.faulty_repairs {
             for _ in 0..2 {
                 let n_ticks = n;
                 let n_repairs = n * (n - 1);
                 let n_restarts = if cfg.allow_restart { n } else { 0 };
-                let c = chooser.borrow_mut().choose(1 + n_ticks + n_repairs + n_restarts);
+                let n_jumps = if cfg.time_jumps { 1 } else { 0 };
+                let c = chooser.borrow_mut().choose(1 + n_ticks + n_repairs + n_restarts + n_jumps);
                 if c == 0 {
                     break;
                 }
                 wall.tick();
                 let c = c - 1;
-                if c < n_ticks {
+                if c >= n_ticks + n_repairs + n_restarts {
+                    out.events.push("61 minutes pass".to_string());
+                    wall.advance(std::time::Duration::from_secs(61 * 60));
+                } else if c < n_ticks {
                     out.events.push(format!("batch flush of node{c}"));
                     cluster.nodes[c].tick().await;
                 } else if c < n_ticks + n_repairs {
@@ -295,7 +322,16 @@ where
                     let pairs = cluster.all_pairs();
                     let (i, j) = pairs[r];
                     out.events.push(format!("repair node{i} <- node{j}"));
+                    repair_rpcs_may_fail.set(cfg.faulty_repairs);
+                    let before = chooser.borrow().position();
                     cluster.repair(i, j).await;
+                    repair_rpcs_may_fail.set(false);
+                    if cfg.faulty_repairs {
+                        let lost = chooser.borrow().nonzero_since(before);
+                        if !lost.is_empty() {
+                            out.events.push(format!("  (request(s) {lost:?} of that exchange were lost)"));
+                        }
+                    }
                 } else {
                     let r = c - n_ticks - n_repairs;
                     out.events.push(format!("node{r} stops and restarts on its storage"));
@@ -543,6 +579,8 @@ pub fn case_json(cfg: &ExecCfg, ops: &[OpSpec], run: &Run, out: &Outcome) -> J {
         .set("lose_all_direct", cfg.lose_all_direct)
         .set("fine_grained", cfg.fine_grained)
         .set("allow_unreachable_node", cfg.allow_unreachable_node)
+        .set("faulty_repairs", cfg.faulty_repairs)
+        .set("time_jumps", cfg.time_jumps)
         .set("skew_minutes", cfg.skew_minutes.clone())
         .set("prelude", J::Arr(cfg.prelude.iter().map(op_json).collect()))
         .set("events", out.events.clone())
@@ -563,8 +601,10 @@ pub fn judge(cfg: &ExecCfg, ops: &[OpSpec], run: &Run, out: &Outcome, st: &mut S
     }
     let restarted = out.events.iter().any(|e| e.contains("restarts"));
     let lost = run.choices.iter().zip(&run.widths).any(|(c, w)| *w == 3 && *c != 0);
+    let repair_lost = out.events.iter().any(|e| e.contains("of that exchange were lost"));
     let shape = match (restarted, lost) {
         _ if cfg.lose_all_direct => "all-direct-replication-lost",
+        _ if repair_lost => "after-a-failed-repair-exchange",
         (true, _) => "with-restart",
         (false, true) => "with-message-loss",
         (false, false) => "no-faults",
@@ -655,12 +695,12 @@ pub fn run(tier: Tier) -> i32 {
     let mut summary = vkit::e2::Summary::default();
     let mut blocks_json = Vec::new();
 
-    let two = |mem| ExecCfg { allow_unreachable_node: false, skew_minutes: vec![], fine_grained: false, prelude: vec![], lose_all_direct: false, n_nodes: 2, mem_store: mem, allow_restart: true, check_side_conditions_every_event: false };
+    let two = |mem| ExecCfg { allow_unreachable_node: false, faulty_repairs: false, time_jumps: false, skew_minutes: vec![], fine_grained: false, prelude: vec![], lose_all_direct: false, n_nodes: 2, mem_store: mem, allow_restart: true, check_side_conditions_every_event: false };
     let mut blocks: Vec<Block> = Vec::new();
     let al2 = op_alphabet(2, &[Consistency::None, Consistency::All]);
     let al2_thin: Vec<OpSpec> = al2.iter().copied().filter(|o| !(o.level == Consistency::All && matches!(o.kind, Kind::Put(2) | Kind::Del(2)))).collect();
     let al3 = op_alphabet(3, &[Consistency::None, Consistency::All]);
-    let three = |restart| ExecCfg { allow_unreachable_node: false, skew_minutes: vec![], fine_grained: false, prelude: vec![], lose_all_direct: false, n_nodes: 3, mem_store: false, allow_restart: restart, check_side_conditions_every_event: false };
+    let three = |restart| ExecCfg { allow_unreachable_node: false, faulty_repairs: false, time_jumps: false, skew_minutes: vec![], fine_grained: false, prelude: vec![], lose_all_direct: false, n_nodes: 3, mem_store: false, allow_restart: restart, check_side_conditions_every_event: false };
     if tier.is_thorough() {
         blocks.push(Block { name: "N=2, 2 operations, <=3 deviations", cfg: two(false), histories: sequences(&al2, 2), bound: 3 });
         blocks.push(Block { name: "N=2, 3 operations, <=2 deviations", cfg: two(false), histories: sequences(&al2, 3), bound: 2 });
@@ -676,6 +716,24 @@ pub fn run(tier: Tier) -> i32 {
         let mut lagging3 = three(false);
         lagging3.allow_unreachable_node = true;
         blocks.push(Block { name: "N=3, 3 operations (one key + bulk), one node unreachable, <=2 deviations", cfg: lagging3, histories: sequences(&al3n, 3), bound: 2 });
+        let mut jumpy = two(false);
+        jumpy.allow_unreachable_node = true;
+        jumpy.time_jumps = true;
+        blocks.push(Block { name: "N=2, 2 operations, one node unreachable until a chosen moment, restarts, 61-minute jumps between operations, <=4 deviations", cfg: jumpy, histories: sequences(&al2, 2), bound: 4 });
+        let mut jumpy3 = two(false);
+        jumpy3.allow_unreachable_node = true;
+        jumpy3.time_jumps = true;
+        blocks.push(Block { name: "N=2, 3 operations (thinned), one node unreachable, restarts, 61-minute jumps, <=3 deviations", cfg: jumpy3, histories: sequences(&al2_thin, 3), bound: 3 });
+        let mut faulty = two(false);
+        faulty.faulty_repairs = true;
+        blocks.push(Block { name: "N=2, 1 operation, repair exchanges may lose any of their requests (also after the last operation), <=5 deviations", cfg: faulty, histories: sequences(&al2, 1), bound: 5 });
+        let mut faulty2 = two(false);
+        faulty2.allow_restart = false;
+        faulty2.faulty_repairs = true;
+        blocks.push(Block { name: "N=2, 2 operations, repair exchanges may lose any of their requests, <=3 deviations", cfg: faulty2, histories: sequences(&al2, 2), bound: 3 });
+        let mut faulty3 = three(false);
+        faulty3.faulty_repairs = true;
+        blocks.push(Block { name: "N=3, 1 operation, repair exchanges may lose any of their requests, <=4 deviations", cfg: faulty3, histories: sequences(&al3, 1), bound: 4 });
         for skew in [vec![0u64, 30], vec![30, 0]] {
             let mut skewed = two(true);
             skewed.mem_store = false;
@@ -691,6 +749,18 @@ pub fn run(tier: Tier) -> i32 {
         lagging.allow_restart = false;
         lagging.allow_unreachable_node = true;
         blocks.push(Block { name: "N=2, 2 operations, one node unreachable until a chosen moment (it joins after deletes happened), <=2 deviations", cfg: lagging, histories: sequences(&al2, 2), bound: 2 });
+        let mut jumpy = two(false);
+        jumpy.allow_unreachable_node = true;
+        jumpy.time_jumps = true;
+        blocks.push(Block { name: "N=2, 2 operations, one node unreachable until a chosen moment, restarts, 61-minute jumps between operations, <=3 deviations", cfg: jumpy, histories: sequences(&al2, 2), bound: 3 });
+        let mut faulty = two(false);
+        faulty.allow_restart = false;
+        faulty.faulty_repairs = true;
+        blocks.push(Block { name: "N=2, 1 operation, repair exchanges may lose any of their requests (also after the last operation), <=4 deviations", cfg: faulty, histories: sequences(&al2, 1), bound: 4 });
+        let mut faulty2 = two(false);
+        faulty2.allow_restart = false;
+        faulty2.faulty_repairs = true;
+        blocks.push(Block { name: "N=2, 2 operations, repair exchanges may lose any of their requests, <=2 deviations", cfg: faulty2, histories: sequences(&al2, 2), bound: 2 });
         let mut skewed = two(false);
         skewed.skew_minutes = vec![0, 30];
         blocks.push(Block { name: "N=2, 2 operations, node1's clock 30 min ahead, <=1 deviation", cfg: skewed, histories: sequences(&al2, 2), bound: 1 });
@@ -757,7 +827,7 @@ pub fn run(tier: Tier) -> i32 {
 
     // ---- concurrency block
     {
-        let ccfg = ExecCfg { allow_unreachable_node: false, skew_minutes: vec![], fine_grained: tier.is_thorough(), prelude: vec![], lose_all_direct: false, n_nodes: 2, mem_store: false, allow_restart: false, check_side_conditions_every_event: false };
+        let ccfg = ExecCfg { allow_unreachable_node: false, faulty_repairs: false, time_jumps: false, skew_minutes: vec![], fine_grained: tier.is_thorough(), prelude: vec![], lose_all_direct: false, n_nodes: 2, mem_store: false, allow_restart: false, check_side_conditions_every_event: false };
         let base = op_alphabet(2, &[Consistency::None, Consistency::All]);
         let mut pairs: Vec<Vec<OpSpec>> = Vec::new();
         for a in &base {
@@ -775,11 +845,13 @@ pub fn run(tier: Tier) -> i32 {
         }
         let before = summary.executions;
         let conc_bound = std::env::var("VERIF_C01_CONC_BOUND").ok().and_then(|v| v.parse().ok()).unwrap_or(tier.pick(3usize, 5));
-        let lossy = ExecCfg { allow_unreachable_node: false, skew_minutes: vec![], fine_grained: false, prelude: vec![], lose_all_direct: true, n_nodes: 2, mem_store: false, allow_restart: false, check_side_conditions_every_event: false };
+        let lossy = ExecCfg { allow_unreachable_node: false, faulty_repairs: false, time_jumps: false, skew_minutes: vec![], fine_grained: false, prelude: vec![], lose_all_direct: true, n_nodes: 2, mem_store: false, allow_restart: false, check_side_conditions_every_event: false };
         // the repair races additionally start from a keyspace that already exists at the source
         // and has not been synchronised yet (otherwise the repairing node would not fetch it)
         let with_prelude = |base: &ExecCfg| ExecCfg {
             allow_unreachable_node: false,
+            faulty_repairs: false,
+            time_jumps: false,
             skew_minutes: vec![],
             fine_grained: false,
             prelude: vec![OpSpec { node: 1, kind: Kind::Put(2), level: Consistency::None }],
@@ -902,6 +974,8 @@ pub fn replay(case: &J) -> i32 {
     let al_for_prelude = op_alphabet(n_nodes, &levels);
     let cfg = ExecCfg {
         allow_unreachable_node: case.get("allow_unreachable_node").and_then(|v| v.as_bool()).unwrap_or(false),
+        faulty_repairs: case.get("faulty_repairs").and_then(|v| v.as_bool()).unwrap_or(false),
+        time_jumps: case.get("time_jumps").and_then(|v| v.as_bool()).unwrap_or(false),
         skew_minutes: case.get("skew_minutes").and_then(|v| v.as_arr()).unwrap_or(&[]).iter().filter_map(|v| v.as_u64()).collect(),
         fine_grained: case.get("fine_grained").and_then(|v| v.as_bool()).unwrap_or(false),
         prelude: case.get("prelude").and_then(|v| v.as_arr()).unwrap_or(&[]).iter().filter_map(|o| al_for_prelude.iter().copied().find(|a| op_json(a).as_str() == o.as_str())).collect(),
